@@ -69,6 +69,31 @@ pub fn run(ctx: &Ctx) -> i32 {
                 if g.states.len() < 2 && rng.chance(1, 2) {
                     g.states.push(ScannerState::new("Other"));
                 }
+                // comment delimiters from a hostile pool (dangling escapes, regex meta characters,
+                // empty, non-ASCII), in every quoting style
+                if rng.chance(1, 3) {
+                    // only raw literals elsewhere: a delimiter literal that ends in a backslash then
+                    // really is the last double-quoted / slash-quoted literal of the text
+                    for t in g.terms.iter_mut() {
+                        t.quote = crate::gram::Quote::Raw;
+                        t.la = None;
+                    }
+                }
+                let hostile = ["\\*\\", "\\", "a\\", "*/", "\\\\", "(*", "\\(\\*", "-->", "]]>", ".", "\\[", "+", "x{2}", "\u{e9}", "\\d", "[", "(", "", "\\*\\)", "*)"];
+                let qs = [crate::gram::Quote::Raw, crate::gram::Quote::Legacy, crate::gram::Quote::Regex];
+                if rng.chance(2, 3) {
+                    let st = rng.below(g.states.len());
+                    let q = *rng.pick(&qs);
+                    let a = rng.pick(&hostile).to_string();
+                    let b = rng.pick(&hostile).to_string();
+                    g.states[st].block_comments.push(((a, q), (b, q)));
+                }
+                if rng.chance(1, 3) {
+                    let st = rng.below(g.states.len());
+                    let q = *rng.pick(&qs);
+                    let a = rng.pick(&hostile).to_string();
+                    g.states[st].line_comments.push((a, q));
+                }
                 let mut names = g.nt_names();
                 names.push("Undefined".into());
                 let nstates = g.states.len();
@@ -102,6 +127,22 @@ pub fn run(ctx: &Ctx) -> i32 {
                 }
                 g.to_par()
             }
+        };
+        // verbatim (unescaped) comment delimiter literals - dangling escapes, half escapes, meta
+        // characters - injected as text after the first line of an otherwise valid grammar
+        let base = if rng.chance(1, 6) {
+            let mut par = base;
+            let verb = ["\\*\\", "\\", "a\\", "\\(\\*", "\\*\\)", "*/", "(*", "[", "(", "+", "x{", "\\x", "\\u{", "", "-->", "\\d+"];
+            let d = *rng.pick(&["\"", "/", "'"]);
+            let a = rng.pick(&verb).to_string();
+            let b = rng.pick(&verb).to_string();
+            let line = if rng.chance(3, 4) { format!("%block_comment {d}{a}{d} {d}{b}{d}\n") } else { format!("%line_comment {d}{a}{d}\n") };
+            if let Some(pos) = par.find('\n') {
+                par.insert_str(pos + 1, &line);
+            }
+            par
+        } else {
+            base
         };
         let (text, family) = match i % 3 {
             0 => (base, "valid"),
